@@ -62,7 +62,7 @@ class Inode(object):
 
 class OFD(object):
     """open file description"""
-    __slots__ = ('inode', 'pos', 'readable', 'writable', 'append', 'refs', 'proc', 'path', 'closed')
+    __slots__ = ('inode', 'pos', 'readable', 'writable', 'append', 'refs', 'proc', 'path', 'closed', 'task')
 
     def __init__(self, inode, readable, writable, append, proc, path):
         self.inode = inode
@@ -74,6 +74,7 @@ class OFD(object):
         self.proc = proc
         self.path = path
         self.closed = False
+        self.task = None
 
 
 class SimRaw(io.RawIOBase):
@@ -507,6 +508,11 @@ class SimFS(object):
             raise _err(errno.ENOENT, p)
         if node.kind == 'd':
             raise _err(errno.EISDIR, p)
+        if node.lock_owner is not None and self.sched is not None:
+            me = self.sched._me()
+            if me is not None and node.lock_owner.task != me.tid:
+                # somebody removes a lock file that another task holds locked
+                self.probes['unlink_of_file_flocked_by_other_task'] = self.probes.get('unlink_of_file_flocked_by_other_task', 0) + 1
         self._mut(('unlink', parent.ino, name, self._now()))
 
     def rename(self, src, dst):
@@ -642,6 +648,9 @@ class SimFS(object):
                 # the kernel updates mtime on O_TRUNC even for an empty file
                 self._mut(('trunc', node.ino, 0, self._now()))
         ofd = OFD(node, readable, writable, bool(flags & os.O_APPEND), proc, p)
+        if self.sched is not None:
+            me = self.sched._me()
+            ofd.task = me.tid if me is not None else None
         node.opens += 1
         fd = self.next_fd
         self.next_fd += 1
